@@ -101,8 +101,9 @@ LastWordAt(j) ==
 
 \* ---- F: whitespace layouts --------------------------------------------------------
 StdSeps  == <<" ", "  ", "\t", "\n", "\r\n", " \t \n ">>
-\* open separators as code points: VT, FF, NEL, NBSP, EM SPACE, LINE SEP, IDEOGRAPHIC SPACE
-OpenSeps == <<11, 12, 133, 160, 8195, 8232, 12288>>
+\* the other White_Space characters, as code points: VT, FF, NEL, NBSP, EM SPACE, LINE SEP, IDEOGRAPHIC SPACE,
+\* OGHAM SPACE MARK, NARROW NO-BREAK SPACE
+OpenSeps == <<11, 12, 133, 160, 8195, 8232, 12288, 5760, 8239>>
 NLayouts == 5 * (Len(StdSeps) * 3 + Len(OpenSeps))
 LayoutAt(j) ==
   LET per == Len(StdSeps) * 3 + Len(OpenSeps)
@@ -115,7 +116,7 @@ LayoutAt(j) ==
             body == JoinWith(idx, sep)
         IN  MItem("mnemonic.parse", "layout",
                   [text |-> IF pad = 0 THEN body ELSE IF pad = 1 THEN sep \o body \o sep ELSE body \o "\n"])
-      ELSE MItem("mnemonic.parse", "layout_open",
+      ELSE MItem("mnemonic.parse", "layout_unicode",
                  [text |-> JoinWith(idx, CpsToStr(<<OpenSeps[m - Len(StdSeps) * 3 + 1]>>))])
 
 \* ---- G: generation with injected entropy (one-hot, patterns, refusals) --------------
